@@ -107,4 +107,22 @@ theorem cloud_rain_counts (f : CloudRain.CFile) (m : Nat) (h : ∀ s ∈ f.steps
   rw [this f.steps h]
   omega
 
+
+/-! ### wind files -/
+
+/-- the records tile the file: per step the header, 2·nz slabs and the one-word closing record -/
+theorem wind_tiles (steps : List Wind.WStep) :
+    parseRecords (Wind.encode steps).length (Wind.encode steps) = some (Wind.records steps) :=
+  parse_encode (Wind.records steps) _ (Nat.le_refl _)
+
+/-- every step contributes its header, its slabs in order and exactly one closing record -/
+theorem wind_step_shape (s : Wind.WStep) :
+    (Wind.stepRecords s).length = s.slabs.length + 2 ∧ (Wind.stepRecords s).getLast? = some [0] ∧
+    ((Wind.stepRecords s).drop 1).take s.slabs.length = s.slabs := by
+  refine ⟨by simp [Wind.stepRecords], ?_, by simp [Wind.stepRecords]⟩
+  have : Wind.stepRecords s = (Wind.header s :: s.slabs) ++ [[0]] := by
+    simp [Wind.stepRecords]
+  rw [this, List.getLast?_append]
+  simp
+
 end Props.C09
